@@ -27,6 +27,12 @@ func runC18(p *eng.Prog, r *eng.Report, tier string) {
 	c19EnumLoops(c, "C18.9", func(f *eng.Fn) bool { return strings.HasPrefix(f.Short, "muc.") })
 	staleNotification(c, "C18.10")
 	c18InvitationByName(c, "C18.17")
+	// the muc handlers are reached through the multiplexer: a presence that
+	// has another payload in front of the muc#user one is replayed to them
+	c14ReplayBuffer(c, "C18.21")
+	c18InvitationDecoderSetsName(c, "C18.22")
+	c18LeaveAddressedToOccupant(c, "C18.19")
+	jidCore(c, "C18.20")
 	c18ErrorHandOffsAreErrors(c, "C18.18")
 	// C18.13 the table is keyed by address strings: the addresses built from a
 	// nickname are canonical (enforced bytes), so that the key under which a
@@ -591,4 +597,90 @@ func c18ErrorHandOffsAreErrors(c *cx, id string) {
 		}
 	}
 	c.r.Floor(id, "sends on error channels in package muc", n, 4)
+}
+
+// c18InvitationDecoderSetsName (C18.22): Client.HandleMessage delivers what
+// Invitation.UnmarshalXML decoded when XMLName.Local is set ("this was an
+// invitation"). Every success return of the decoder has stored XMLName:
+// a decoder that returns nil early - "no addressee, so not an invitation" -
+// makes the mediated invitation a room forwards (which carries from, not to)
+// disappear: delivered zero times.
+func c18InvitationDecoderSetsName(c *cx, id string) {
+	f := c.fn(id, "muc", "(*Invitation).UnmarshalXML")
+	if f == nil {
+		return
+	}
+	g := f.Graph()
+	isStore := func(q eng.Point, nd ast.Node) bool {
+		as, ok := nd.(*ast.AssignStmt)
+		if !ok {
+			return false
+		}
+		for _, l := range as.Lhs {
+			if k, ok := f.FieldClass(l); ok && k == "muc.Invitation.XMLName" {
+				return true
+			}
+		}
+		return false
+	}
+	n := 0
+	for _, rs := range g.Returns {
+		if g.RetKindOf(rs) == eng.RetError {
+			continue
+		}
+		n++
+		rp, _ := g.Where(rs)
+		c.r.Check(id, f, "decoded invitation is marked as one", "O: every return of the decoder that may be nil has stored Invitation.XMLName (the mark by which HandleMessage recognises an invitation)", rs.Pos(), g.MustPassBefore(g.Entry(), rp, isStore, nil), "a success return leaves XMLName empty: the invitation is decoded and then dropped by HandleMessage")
+	}
+	c.r.Floor(id, "success returns of Invitation.UnmarshalXML", n, 1)
+}
+
+// c18LeaveAddressedToOccupant (C18.19): Leave returns when the occupant's own
+// unavailable presence (or an error reply) arrives; the room sends that only
+// for a presence addressed to the occupant address. Whatever To the caller's
+// template carries, the presence LeavePresence sends is addressed to
+// Channel.addr: every path to the send passes the store p.To = c.addr or the
+// edge on which p.To already equals it.
+func c18LeaveAddressedToOccupant(c *cx, id string) {
+	f := c.fn(id, "muc", "(*Channel).LeavePresence")
+	if f == nil {
+		return
+	}
+	g := f.Graph()
+	cut := eng.Cut{}
+	for _, ce := range g.EdgesMatching("jid.JID.Equal[p2.To](recv.addr)") {
+		cut[ce.E] = true
+	}
+	for _, ce := range g.EdgesMatching("jid.JID.Equal[recv.addr](p2.To)") {
+		cut[ce.E] = true
+	}
+	isStore := func(q eng.Point, nd ast.Node) bool {
+		as, ok := nd.(*ast.AssignStmt)
+		if !ok || len(as.Lhs) != 1 || len(as.Rhs) != 1 {
+			return false
+		}
+		return f.Norm(as.Lhs[0], nil) == "p2.To" && f.Norm(as.Rhs[0], nil) == "recv.addr"
+	}
+	n := 0
+	var sites []ast.Node
+	f.WalkBody(func(nd ast.Node) bool {
+		switch x := nd.(type) {
+		case *ast.GoStmt:
+			sites = append(sites, x)
+		case *ast.CallExpr:
+			if strings.HasPrefix(f.CalleeID(x), "xmpp.Session.SendPresence") {
+				sites = append(sites, x)
+			}
+		}
+		return true
+	})
+	for _, st := range sites {
+		pt, ok := g.Where(st)
+		if !ok {
+			continue
+		}
+		n++
+		c.r.Check(id, f, "leave presence addressed to the occupant address", "O: every path to the point where the unavailable presence is sent passes `p.To = c.addr`, or the edge p.To.Equal(c.addr)", st.Pos(), g.MustPassBefore(g.Entry(), pt, isStore, cut), "a presence template with another To (the bare room address) is sent as it is: the room does not answer it with the occupant's unavailable presence and Leave ends with its context's error")
+	}
+	c.r.Floor(id, "send sites in LeavePresence", n, 1)
 }
